@@ -178,6 +178,13 @@ theorem relative_nonempty (f t : Bytes) (h : RelExists f t) (hne : f ≠ []) : g
   rw [h3] at he
   exact absurd he (by decide)
 
+/-- isAbsolutePath is true exactly for paths whose denotation is absolute, or that carry a drive prefix
+    `x:/` / `x:\` -/
+theorem absolute_spec (p : Bytes) :
+    isAbsolutePath p = ((denote p).abs ||
+      (decide (p.length > 2) && p[1]? == some 58 && (match p[2]? with | some c => isSep c | none => false))) := by
+  rw [(denote_valid p).2]; rfl
+
 /-! non-vacuity / sanity -/
 example : simplifyPath [47, 97, 47, 46, 46] = [47] := by decide
 example : RelExists [97, 47, 98] [97] ∧ getRelativePath [97, 47, 98] [97] = [46, 46] := by decide
